@@ -755,6 +755,7 @@ func main() {
 	nchan := flag.Int("nchan", 60, "random channel runs")
 	nbig := flag.Int("nbig", 12, "large channel scans")
 	ntouch := flag.Int("ntouch", 40, "touch-near-cap cases")
+	nuniq := flag.Int("nuniq", 40, "calls of the real channel-selection function")
 	exhLen := flag.Int("exh-len", 3, "exhaustive sequences up to this length")
 	exhPct := flag.Int("exh-sample", 25, "percentage of the longest exhaustive length that is run")
 	seed := flag.Uint64("seed", 1, "seed")
@@ -789,7 +790,9 @@ func main() {
 				if w == nil {
 					w = newWorld(15*time.Minute, 40)
 				}
-				if raw["kind"] == "touchcap" {
+				if raw["kind"] == "uniq" {
+					uniq(o, fmt.Sprintf("replay-%d", k), int(raw["q"].(float64)), int(raw["m"].(float64)))
+				} else if raw["kind"] == "touchcap" {
 					touchCap(o, w, r, fmt.Sprintf("replay-%d", k), int64(15*time.Minute))
 				} else {
 					bigScan(o, w, r, fmt.Sprintf("replay-%d", k), raw["deferred"] == true, 30)
@@ -849,7 +852,30 @@ func main() {
 		maxMsg := []int64{int64(2 * time.Second), int64(15 * time.Minute)}[k%2]
 		touchCap(o, get(maxMsg, 40), r, fmt.Sprintf("touchcap-%d", k), maxMsg)
 	}
+	// 4. queueScanLoop's channel selection (real util.UniqRands)
+	for k := 0; k < *nuniq; k++ {
+		m := []int{0, 1, 2, 5, 19, 20, 21, 40, 200}[r.Intn(9)]
+		q := 20
+		if r.Chance(25) {
+			q = r.Intn(30)
+		}
+		if q > m { // as queueScanLoop does before the call
+			q = m
+		}
+		uniq(o, fmt.Sprintf("uniq-%d", k), q, m)
+	}
 	for _, w := range worlds {
 		w.n.Exit()
 	}
+}
+
+func uniq(o *lib.Out, name string, q, m int) {
+	res := verifshim.UniqRands(q, m)
+	vs := make([]int64, len(res))
+	for i, x := range res {
+		vs[i] = int64(x)
+	}
+	o.Emit(lib.Case{Name: name, Coq: fmt.Sprintf("(J04.Uniq %d %d %s)", q, m, zs(vs)),
+		Input: map[string]interface{}{"kind": "uniq", "q": q, "m": m},
+		Tags:  []string{"kind=scan-selection", fmt.Sprintf("selection-covers-all-channels=%v", q >= m)}, Nontrivial: true})
 }
